@@ -755,6 +755,31 @@ class Evaluator:
 
         def f(v, s):
             arms = e["arms"]
+            # arms with guards whose pattern matches definitely: `P if g => a, rest..` is `if g { a } else { rest.. }`
+            if any("guard" in a for a in arms):
+                def from_arm(i, s_):
+                    if i == len(arms):
+                        return k(("opaque", "nomatch"), s_)
+                    arm = arms[i]
+                    s2 = dict(s_)
+                    r = self.match_pat(arm["pat"], v, s2)
+                    if r is False:
+                        return from_arm(i + 1, s_)
+                    if r is not True:
+                        return None
+                    if "guard" not in arm:
+                        return self.ev(arm["body"], s2, env, k)
+
+                    def kg(gv, sg):
+                        els = lambda s3: from_arm(i + 1, {**s_, **{kk: vv for kk, vv in s3.items() if kk == "__conds"}})
+                        return self.branch(gv, sg, lambda s3: self.ev(arm["body"], s3, env, k), els)
+                    return self.ev(arm["guard"], s2, env, kg)
+                definite = True
+                for arm in arms:
+                    if self.match_pat(arm["pat"], v, dict(s)) not in (True, False):
+                        definite = False
+                if definite:
+                    return from_arm(0, s)
             pending = []
             for arm in arms:
                 s2 = dict(s)
@@ -1232,7 +1257,7 @@ class Canon:
             for key, arm in self.assume.items():
                 if key in repr(cond):
                     for lab, sub in t["arms"]:
-                        if lab == arm:
+                        if lab == arm or (isinstance(arm, tuple) and lab in arm):
                             return self.tree(sub)
             return ("opq", cond, tuple((lab, self.tree(sub)) for lab, sub in t["arms"]))
         if n == "unm":
@@ -1261,6 +1286,14 @@ def simplify(t):
         body = simplify(t[4])
         after = simplify(t[5])
         lid = t[1]
+        if body[0] == "opq" and not mentions_loop(body[1], lid) and len(body[2]) >= 2:
+            # loop unswitching: `for .. { if c { A } else { B } }` with c independent of the loop is
+            # `if c { for .. { A } } else { for .. { B } }` (each copy is then simplified on its own: a copy whose
+            # body does nothing disappears).  Canonical form = the unswitched one.
+            arms = tuple((lab, simplify(("loop", lid, t[2], t[3], sub, after))) for lab, sub in body[2])
+            if all(a[1] == arms[0][1] for a in arms):
+                return arms[0][1]
+            return ("opq", body[1], arms)
         if body[0] == "leaf" and body[1] == "CONTINUE" and body[2] == lid and all(
                 u == ("cur", ("loop", lid, j)) for j, u in enumerate(body[3])):
             # a loop without events that leaves its carried cursors alone: not there
@@ -1274,6 +1307,14 @@ def simplify(t):
     if tag == "unm":
         return ("unm", t[1], simplify(t[2]))
     return t
+
+
+def mentions_loop(v, lid):
+    if isinstance(v, tuple):
+        if len(v) >= 2 and v[0] in ("loop", "exit", "idx", "loopid") and v[1] == lid:
+            return True
+        return any(mentions_loop(x, lid) for x in v)
+    return False
 
 
 def subst_exit(t, lid, entry):
@@ -1298,6 +1339,7 @@ def canon(tree, erase=True, assume=None):
 def compact(t):
     evmap = {}
     loopmap = {}
+    counter = {"ev": 0, "loop": 0}     # running counters: unswitching duplicates subtrees, so original ids can occur twice
 
     def sub(x):
         if isinstance(x, tuple):
@@ -1313,14 +1355,16 @@ def compact(t):
     def go(t):
         tag = t[0]
         if tag in ("fork", "ev"):
-            evmap[t[1]] = len(evmap) + 1
+            counter["ev"] += 1
+            evmap[t[1]] = counter["ev"]
             i = evmap[t[1]]
             lab = sub(t[2])
             if tag == "ev":
                 return ("ev", i, lab, go(t[3]))
             return ("fork", i, lab, go(t[3]), go(t[4]))
         if tag == "loop":
-            loopmap[t[1]] = len(loopmap) + 1
+            counter["loop"] += 1
+            loopmap[t[1]] = counter["loop"]
             i = loopmap[t[1]]
             return ("loop", i, sub(t[2]), sub(t[3]), go(t[4]), go(t[5]))
         if tag == "opq":
